@@ -27,6 +27,20 @@ def run(facts, rep):
     d3_det(facts, rep)
     d4_scan(facts, rep)
     d5_sort(facts, rep)
+    d6_overloads(facts, rep)
+
+
+def d6_overloads(facts, rep):
+    from rules.common import api_family_agreement
+    n = 0
+    for fam, what in ((D1 + 'parallel_reduce', 'join tree follows the steals'),
+                      (D1 + 'parallel_deterministic_reduce', 'split/join tree depends only on range and grain size'),
+                      (D1 + 'parallel_scan', 'two-pass scan'), (D1 + 'parallel_sort', 'quick sort')):
+        g, unc = api_family_agreement(facts, rep, 'D6', fam, what)
+        n += g
+        if unc:
+            rep.note('D6: %d overload(s) of %s are not instantiated by the drivers and were not analysed' % (unc, fam))
+    rep.floor('D6', 30, 'public overloads of reduce / deterministic_reduce / scan / sort')
 
 
 def witnesses(rep, tier):
